@@ -22,7 +22,7 @@ var (
 
 // verifSetMapHook arms (fn != nil) or disarms the hook for the calling goroutine.
 //
-//go:linkname verifSetMapHook
+//go:linkname verifSetMapHook time.verifSetMapHook
 func verifSetMapHook(fn func(count int, b uint8) uint64) {
 	if fn == nil {
 		verifMapG = nil
@@ -66,8 +66,8 @@ def patch_time(src):
     old = 'func Now() Time {\n\tsec, nsec, mono := now()\n'
     if src.count(old) != 1:
         sys.exit('rtpatch: time.Now prologue not found exactly once')
-    src = src.replace(old, old + '\tsec += VerifOffsetSec\n')
-    return src + '\n// VerifOffsetSec is added to the wall clock read by Now (verif harness only).\nvar VerifOffsetSec int64\n'
+    src = src.replace(old, 'func Now() Time {\n\tif VerifFixedNano != 0 {\n\t\treturn Unix(0, VerifFixedNano)\n\t}\n\tsec, nsec, mono := now()\n' + '\tsec += VerifOffsetSec\n')
+    return src + '\n// VerifOffsetSec is added to the wall clock read by Now; VerifFixedNano, when non-zero,\n// replaces it altogether (verif harness only).\nvar VerifOffsetSec int64\nvar VerifFixedNano int64\n\n// verifSetMapHook is provided by the (patched) runtime via linkname.\nfunc verifSetMapHook(fn func(count int, b uint8) uint64)\n\n// VerifSetMapHook arms (fn != nil) or disarms the map-iteration hook for the calling goroutine.\nfunc VerifSetMapHook(fn func(count int, b uint8) uint64) { verifSetMapHook(fn) }\n'
 
 def main(outdir):
     gr = goroot()
